@@ -7,12 +7,26 @@
 #ifndef NOPT
 #define NOPT 2
 #endif
+/* reference memcpy for the one use in cfg_dupopt_array (an array of option structs): copied struct-wise, so that the
+ * fields stay typed for symbolic execution (CBMC's byte-wise model makes every later field read a byte extraction and
+ * the recursion over sub-options is then explored blindly).  Contract: C11 7.24.2.1, non-overlapping objects. */
+void *memcpy(void *dest, const void *src, size_t n)
+{
+	if (n % sizeof(cfg_opt_t) == 0) {
+		cfg_opt_t *d = dest; const cfg_opt_t *s = src;
+		for (size_t i = 0; i < n / sizeof(cfg_opt_t); i++) d[i] = s[i];
+	} else {
+		unsigned char *d = dest; const unsigned char *s = src;
+		for (size_t i = 0; i < n; i++) d[i] = s[i];
+	}
+	return dest;
+}
 static char *str1(void) { char *s = cfgv_alloc(2); s[0] = nondet_char(); __CPROVER_assume(s[0] != 0); s[1] = 0; return s; }
 static cfg_opt_t g_nested[1];      /* a declared sub-option array (terminator only) */
 
 /* a caller-owned declaration array of n options; every optional string present or absent */
-static int k_present;    /* constant per case: 0 no optional string, 1 all of them, 2 alternating */
-#define PRESENT(i, j) (k_present == 1 || (k_present == 2 && (((i) + (j)) & 1)))
+static int k_present;    /* constant per case: 0 no optional string, 1 all of them, 2 alternating, 3 only the first option's default string */
+#define PRESENT(i, j) (k_present == 1 || (k_present == 2 && (((i) + (j)) & 1)) || (k_present == 3 && (i) == 0 && (j) == 1))
 static cfg_opt_t *mk_decl(unsigned n, _Bool with_nested)
 {
 	cfg_opt_t *a = cfgv_alloc((n + 1) * sizeof(cfg_opt_t));
@@ -127,7 +141,7 @@ void h_cfg_free(void)
 {
 	cfg_t *cfg = cfgv_alloc(sizeof(cfg_t)); _Bool root = nondet_bool(); int rc;
 	memset(cfg, 0, sizeof *cfg);
-	cfg->name = cfgv_alloc(5); memcpy(cfg->name, root ? "root" : "sect", 5);
+	cfg->name = cfgv_alloc(5); cfg->name[0] = root ? 'r' : 's'; cfg->name[1] = root ? 'o' : 'e'; cfg->name[2] = root ? 'o' : 'c'; cfg->name[3] = 't'; cfg->name[4] = 0;
 	cfg->title = nondet_bool() ? str1() : NULL; cfg->filename = nondet_bool() ? str1() : NULL; cfg->comment = nondet_bool() ? str1() : NULL;
 	cfg->opts = cfgv_alloc(2 * sizeof(cfg_opt_t)); memset(cfg->opts, 0, 2 * sizeof(cfg_opt_t));
 	cfg->opts[0].name = str1(); cfg->opts[0].type = CFGT_INT;
